@@ -162,9 +162,9 @@ type bigCase struct {
 
 func genBig(t *rapid.T) bigCase {
 	return bigCase{
-		N:      rapid.SampledFrom([]int{5, 64, 127, 128, 129, 257, 300, 700}).Draw(t, "n"),
+		N:      rapid.SampledFrom([]int{5, 64, 127, 128, 129, 257, 300, 700, 5, 64, 127, 128, 129, 257, 300, 700, 1024, 1025, 1027, 1300, 2100, 4100}).Draw(t, "n"),
 		Reader: rapid.SampledFrom([]string{"getwithmap", "getwithmap", "keys", "values", "range", "all"}).Draw(t, "reader"),
-		Writer: rapid.SampledFrom([]string{"mapset", "mapset", "clear", "delete", "mapdelete"}).Draw(t, "writer"),
+		Writer: rapid.SampledFrom([]string{"mapset", "mapset", "clear", "delete", "delete", "mapdelete", "mapadd", "set1", "delete1"}).Draw(t, "writer"),
 		Slots:  conc.GenSlots(t, 2, 10),
 	}
 }
@@ -215,6 +215,31 @@ func runBig(c bigCase, r *pb.Rec) error {
 				})
 			}
 		}
+	case "mapadd": // the map grows by a quarter in one call
+		for k := range before {
+			after[k] = 1
+		}
+		for k := c.N; k < c.N+c.N/4+1; k++ {
+			after[k] = 3
+		}
+		writer = func() {
+			s.Map(func(m mapz.KV[int, int]) {
+				for k := c.N; k < c.N+c.N/4+1; k++ {
+					m[k] = 3
+				}
+			})
+		}
+	case "set1", "delete1": // the size changes by one
+		for k := range before {
+			after[k] = 1
+		}
+		if c.Writer == "set1" {
+			after[c.N] = 3
+			writer = func() { s.Set(c.N, 3) }
+		} else {
+			delete(after, c.N/2)
+			writer = func() { s.Delete(c.N / 2) }
+		}
 	default:
 		return nil
 	}
@@ -224,7 +249,7 @@ func runBig(c bigCase, r *pb.Rec) error {
 	case "getwithmap":
 		reader = func() {
 			req := map[int]int{}
-			for k := 0; k < c.N+3; k++ {
+			for k := 0; k < c.N+c.N/4+3; k++ {
 				req[k] = -1
 			}
 			s.GetWithMap(req)
@@ -307,13 +332,16 @@ func runBig(c bigCase, r *pb.Rec) error {
 	r.ClassIf(same(after) && !same(before), "snapshot taken after the writer")
 	r.ClassIf(same(before), "snapshot taken before the writer")
 	r.ClassIf(c.N > 128, "more than 128 keys")
+	r.ClassIf(c.N > 1024, "more than 1024 keys")
+	r.ClassIf(c.N > 1024 && c.Writer == "delete", "one Delete call with more than 512 keys")
+	r.ClassIf(c.N > 1024 && (c.Writer == "set1" || c.Writer == "delete1" || c.Writer == "mapadd" || c.Writer == "delete"), "more than 1024 keys and a writer that changes the size")
 	r.NonTrivialIf(c.N > 128)
 	return nil
 }
 
 func init() {
-	pb.Register("safekv_big_snapshot", pb.Options{Base: 1500, Required: []string{"more than 128 keys", "snapshot taken after the writer", "snapshot taken before the writer"},
-		Rule: "one snapshot call (GetWithMap / Keys / Values / Range / All) over 5..700 keys in one thread against one atomic bulk writer call (Map setting every key, Clear, Delete of half the keys, Map deleting half) in another, under generated schedules of the lock-level scheduling points; oracle: the observation equals the map before or the map after the writer; non-trivial = more than 128 keys"},
+	pb.Register("safekv_big_snapshot", pb.Options{Base: 1500, Required: []string{"more than 128 keys", "more than 1024 keys", "one Delete call with more than 512 keys", "more than 1024 keys and a writer that changes the size", "snapshot taken after the writer", "snapshot taken before the writer"},
+		Rule: "one snapshot call (GetWithMap / Keys / Values / Range / All) over 5..4100 keys in one thread against one atomic writer call (Map setting every key, Clear, Delete of half the keys, Map deleting half, Map adding a quarter, Set of one new key, Delete of one key) in another, under generated schedules of the lock-level scheduling points; oracle: the observation equals the map before or the map after the writer; non-trivial = more than 128 keys"},
 		genBig, runBig)
 }
 
